@@ -308,6 +308,38 @@ impl Property for C07 {
                         }
                     }
                 }
+                // vectors that differ from the (accepted) centres in one joint only: that joint alone decides, for compliant and for filter alike
+                let probes: Vec<[f64; 6]> = vectors
+                    .iter()
+                    .enumerate()
+                    .map(|(n, v)| {
+                        let mut w = cons.centers;
+                        w[n % 6] = v[n % 6];
+                        w
+                    })
+                    .collect();
+                let kept = cons.filter(&probes);
+                let mut expect_kept = Vec::new();
+                for (n, w) in probes.iter().enumerate() {
+                    let k = n % 6;
+                    match arc_member(from[k], to[k], w[k], 1e-9) {
+                        Verdict::Undecided => {
+                            // undecided by the oracle: follow compliant (filter must agree with it in any case)
+                            if cons.compliant(w) {
+                                expect_kept.push(*w);
+                            }
+                        }
+                        verdict => {
+                            let got = cons.compliant(w);
+                            ensure!(got == (verdict == Verdict::In), "a joint vector is accepted exactly when every joint lies on its arc", "centres with joint {} = {}: from={} to={}: compliant={} expected={:?}", k + 1, w[k], from[k], to[k], got, verdict);
+                            if verdict == Verdict::In {
+                                expect_kept.push(*w);
+                            }
+                            ctx.class(if got { "set:single-joint probe accepted" } else { "set:single-joint probe rejected" });
+                        }
+                    }
+                }
+                ensure!(kept == expect_kept, "filter(v) keeps exactly the compliant vectors, in order", "single-joint probes around the centres: filtered={:?} expected={:?} (from={:?} to={:?})", kept, expect_kept, from, to);
                 ctx.nontrivial();
                 Ok(())
             }
